@@ -1,6 +1,6 @@
 //! Generators for the properties that are judged on whole resizes (C05, C07, C09, C10, C11, C12, C13, C18).
 
-use crate::c01::{random_crop, random_size};
+use crate::c01::{near_size, random_crop, random_size};
 use crate::rcase::*;
 use crate::util::*;
 use crate::views::*;
@@ -163,6 +163,23 @@ pub fn gen_c05(out: &mut Out, seed: u64, thorough: bool) {
                 _ => case.crop = CropSpec::Box(0.0, 0.0, 0.0, 1.0),
             }
         }
+        if i % 7 == 3 {
+            // crop size within a fraction of the destination size: a required pass must not be skipped
+            let (sw, sh) = (random_size(&mut rng, 24), random_size(&mut rng, 24));
+            let (dw, dh, crop) = near_size(&mut rng, sw, sh);
+            case = base_case(&mut rng, pt, sw, sh, dw, dh);
+            case.crop = crop;
+            case.dshape = placements(dw, dh, rng.below(PLACEMENTS as u64) as usize);
+        }
+        if i % 13 == 7 {
+            // Nearest with crop boxes within rounding distance of the right / bottom edge: every row and column must still be written
+            let (sw, sh) = (random_size(&mut rng, 20), random_size(&mut rng, 20));
+            let (dw, dh) = (random_size(&mut rng, 9), random_size(&mut rng, 9));
+            case = base_case(&mut rng, pt, sw, sh, dw, dh);
+            case.alg = AlgSpec::nearest();
+            case.crop = flush_crop(&mut rng, sw, sh);
+            case.dshape = placements(dw, dh, rng.below(PLACEMENTS as u64) as usize);
+        }
         if i % 97 == 5 && pt_kind(pt) == Kind::U8 {
             // recorded finding F18: a custom kernel whose weights all vanish on a one-pixel-wide 8-bit source
             // (ring kernel) makes the intermediate image zero pixels wide; the second pass then writes nothing
@@ -177,6 +194,21 @@ pub fn gen_c05(out: &mut Out, seed: u64, thorough: bool) {
         let got2 = run_case(&case, 0x5A);
         let rel = if case.sbuf == sbefore { "ok" } else { "source-changed" };
         emit(out, &case, 0xA5, &got, &format!(" fill2=5a got2={} check=writeset,rel rel={}", got2, rel), "write-set");
+    }
+}
+
+/// crop boxes within one ulp of the right / bottom edge
+pub fn flush_crop(rng: &mut Rng, sw: u32, sh: u32) -> CropSpec {
+    let (fw, fh) = (sw as f64, sh as f64);
+    let below = |v: f64| f64::from_bits(v.to_bits() - 1);
+    match rng.below(4) {
+        0 => {
+            let e = *rng.pick(&[1e-9, 1e-13, 2.2e-16, 1e-17]);
+            CropSpec::Box(fw - fw * e, fh - fh * e, fw * e, fh * e)
+        }
+        1 => CropSpec::Box(below(fw), below(fh), fw - below(fw), fh - below(fh)),
+        2 => CropSpec::Box(below(fw), 0.0, fw - below(fw), fh),
+        _ => CropSpec::Box(0.0, below(fh), fw, fh - below(fh)),
     }
 }
 
@@ -398,7 +430,22 @@ pub fn gen_c18(out: &mut Out, seed: u64, thorough: bool) {
                 _ => (lo + rng.below((hi - lo + 1) as u64) as i64) as u64,
             }
         };
-        let a: Vec<u64> = (0..npx).map(|_| match rng.below(6) { 0 => if kind == Kind::F32 { val(&mut rng) } else if kind == Kind::I32 { lo as i32 as u32 as u64 } else { lo as u64 }, 1 => if kind == Kind::F32 { val(&mut rng) } else if kind == Kind::I32 { hi as i32 as u32 as u64 } else { hi as u64 }, _ => val(&mut rng) }).collect();
+        // two-level images with large flat areas (an overshoot by one unit above a flat maximum is visible) and long kernels
+        let two_level = i % 5 == 2 && kind != Kind::F32;
+        if two_level {
+            let (bw, bh) = if rng.chance(1, 2) { (rng.range(200, 600) as u32, rng.range(1, 7) as u32) } else { (rng.range(1, 7) as u32, rng.range(200, 600) as u32) };
+            let (ow, oh) = (rng.range(1, 33).min(bw as u64) as u32, rng.range(1, 7).min(bh as u64) as u32);
+            case.sshape = plain(bw, bh);
+            case.dshape = plain(ow, oh);
+            case.crop = CropSpec::None;
+        }
+        let (sw, sh) = (case.sshape.width(), case.sshape.height());
+        let npx = (sw * sh) as usize * pt_comps(pt);
+        let a: Vec<u64> = if two_level {
+            let (l, h) = if kind == Kind::I32 { (lo as i32 as u32 as u64, hi as i32 as u32 as u64) } else { (lo as u64, hi as u64) };
+            let period = rng.range(3, 90) as usize;
+            (0..npx).map(|j| if (j / pt_comps(pt) / period) % 2 == 0 { h } else { l }).collect()
+        } else { (0..npx).map(|_| match rng.below(6) { 0 => if kind == Kind::F32 { val(&mut rng) } else if kind == Kind::I32 { lo as i32 as u32 as u64 } else { lo as u64 }, 1 => if kind == Kind::F32 { val(&mut rng) } else if kind == Kind::I32 { hi as i32 as u32 as u64 } else { hi as u64 }, _ => val(&mut rng) }).collect() };
         case.sbuf = a.clone();
         let got_a = run_case(&case, 0xA5);
         // a component-wise larger image
